@@ -4,9 +4,9 @@ Lean side (lean/J2O/Model/C13.lean, Lemmas/C13.lean, Props/C13.lean): the patch 
 own-attribute tables with MRO lookup and descriptors, `apply_patches` (entry loop, LIFO unwind,
 `_MISSING`/delete-on-restore, duplicates on one key), `apply_monkey_patches` with the refcounted
 `_PATCH_STATE`, arbitrary nesting, an exception injected at every step.  Theorems:
-`run_restores_partial` (+ named instances) under two monitored hypotheses, and machine-checked
-refutations of the two full-strength statements (inherited attribute captured while its
-provider is patched; exception in the entry loop of apply_monkey_patches), `x64_restored`.
+`run_restores` (+ named instances), full strength since fix 21b5229 (the target's OWN entry is put
+back; the entry loop of apply_monkey_patches is inside its try), regression theorems about the
+pre-fix machine, `x64_restored`.
 
 Tie (H): seeded sandbox worlds (modules, class hierarchies with single and multiple
 inheritance, missing attributes, static/class-method descriptors, a frozen target) and seeded
@@ -19,8 +19,7 @@ resolution of every attribute of the jax*/flax*/equinox*/… modules and classes
 patch target of the live registry), the x64 flag, `_PATCH_STATE`, user-module state and
 behavioural probes, before/after every call of seeded histories of succeeding and failing real
 `to_onnx` calls.  Every real patch application is classified at the moment it happens (own /
-missing / inherited) by shadowing `getattr` in `_patching`, which is the hypothesis `good` of the
-theorem observed on the real runs.
+missing / inherited) by shadowing `getattr` in `_patching` (information).
 """
 from __future__ import annotations
 
@@ -46,22 +45,18 @@ META = {
                  "apply_monkey_patches/_PATCH_STATE, nesting, exceptions at every step; x64 flag stack) + "
                  "driver correspondence with the real context managers on seeded sandbox worlds + "
                  "namespace snapshots around seeded histories of real conversions",
-    "level_text": "Kernel-checked: run_restores_partial (for every program nesting apply_patches / "
-                  "apply_monkey_patches contexts, every hierarchy, registry, start state and exception point "
-                  "inside a try: own-attribute tables and _PATCH_STATE are restored EXACTLY when every patched "
-                  "key had an own plain value or was missing on the whole MRO, and no exception hit the entry "
-                  "loop of apply_monkey_patches), its instances applyPatches_restores_partial / "
-                  "monkey_restores_partial / patchState_empty_after_partial / lookup_restored_partial, "
-                  "x64_restored, and the machine-checked refutations applyPatches_restores_refuted (inherited "
-                  "attribute captured while its provider is patched) and monkey_restores_refuted (exception in "
-                  "the entry loop).",
-    "level_note": "PARTIAL: both hypotheses are necessary and both are violated by the unchanged tree "
-                  "(known findings F-C13-mha-inherited-capture, F-C13-entry-loop). Benign own-copies of "
-                  "inherited attributes (flax.linen Conv/ConvLocal) are outside the exact theorem and are "
-                  "observed only (resolution unchanged). jit/pjit trace caches, threads and ContextVars are "
-                  "not modelled: covered by behavioural probes only. Trusted: Lean kernel + 3 axioms; the "
-                  "hand-written model (validated by the sandbox correspondence each run); unwinding "
-                  "setattr/delattr assumed not to raise; Python's getattr = MRO lookup + descriptor protocol.",
+    "level_text": "Kernel-checked, FULL strength since fix 21b5229: run_restores (for every program nesting "
+                  "apply_patches / apply_monkey_patches contexts, every hierarchy incl. diamonds, registry, start "
+                  "state with positive reference counts, and every exception point incl. the entry loop of "
+                  "apply_monkey_patches: own-attribute tables and _PATCH_STATE are restored EXACTLY — own, "
+                  "inherited, missing, metaclass-provided and descriptor keys alike), run_restores_from_clean, "
+                  "applyPatches_restores, monkey_restores, patchState_empty_after, lookup_restored, x64_restored; "
+                  "regression theorems about the pre-fix machine (old_capture_leaks, old_entry_fault_leaks).",
+    "level_note": "Only hypothesis left: reference counts of a pre-existing _PATCH_STATE are >= 1 (a code invariant; "
+                  "vacuous from the empty table). jit/pjit trace caches, threads and ContextVars are not modelled: "
+                  "covered by behavioural probes only. Trusted: Lean kernel + 3 axioms; the hand-written model "
+                  "(validated by the sandbox correspondence each run); unwinding setattr/delattr assumed not to "
+                  "raise; Python's getattr = MRO lookup + descriptor protocol; targets have a __dict__.",
     "design_ref": "DESIGN.md §3 C13",
 }
 
@@ -266,8 +261,9 @@ def gen_case(rng: common.Rng, idx: int) -> dict:
     if reg and rng.chance(0.3):
         reg.append(list(reg[0][:2]) + [rng.randint(61, 90)])      # two plugins on one site
     ps = []
-    if rng.chance(0.15) and reg:                                    # stale refcount entry from an earlier leak
-        ps.append([reg[0][0], reg[0][1], {"tok": 99}, rng.randint(1, 2)])
+    if rng.chance(0.15) and reg:                                    # an enclosing conversion holds this site already
+        own = next((v for (t, a, v) in world["own"] if t == reg[0][0] and a == reg[0][1]), None)
+        ps.append([reg[0][0], reg[0][1], {"tok": 99}, own if rng.chance(0.7) else None, rng.randint(1, 2)])
     p_fault = rng.choice([0.0, 0.1, 0.25])
     prog = gen_prog(rng, rng.choice([1, 2, 3, 3]), len(reg), profile, p_fault)
     # monkey fault lists must be aligned with the final registry and mark frozen-target sites
@@ -339,8 +335,9 @@ def run_real(case: dict) -> str:
     saved_iter = psys._iter_patch_specs
     saved_state = dict(psys._PATCH_STATE)
     psys._PATCH_STATE.clear()
-    for t, a, v, c in case["ps"]:
-        psys._PATCH_STATE[(sb.t[t], ATTRS[a])] = {"orig": sb.mk(v), "count": c}
+    for t, a, v, own, c in case["ps"]:
+        psys._PATCH_STATE[(sb.t[t], ATTRS[a])] = {"orig": sb.mk(v), "count": c,
+                                                  "own": _patching._MISSING if own is None else sb.mk(own)}
     psys._iter_patch_specs = lambda: iter(sites)
     raised = False
     try:
@@ -359,7 +356,10 @@ def run_real(case: dict) -> str:
                     look.append(f"{t}.{a}={sb.canon(g)}")
                 st = psys._PATCH_STATE.get((sb.t[t], ATTRS[a]))
                 if st is not None:
-                    pst.append(f"{t}.{a}={sb.canon(st['orig'])}#{st['count']}")
+                    own_v = st.get("own", "no-own-field")
+                    own_s = "-" if own_v is _patching._MISSING else (own_v if isinstance(own_v, str)
+                                                                      else sb.canon(own_v))
+                    pst.append(f"{t}.{a}={sb.canon(st['orig'])}/{own_s}#{st['count']}")
     finally:
         psys._iter_patch_specs = saved_iter
         psys._PATCH_STATE.clear()
@@ -377,11 +377,9 @@ def driver_line(case: dict) -> str:
                        "keys": [[t, a] for t in range(8) for a in range(len(ATTRS))]})
 
 
-def split_answer(ans: str) -> tuple[str, bool, bool]:
-    """model line → (comparable part, good, entryOk)"""
-    parts = ans.split(" ")
-    flags = {p.split("=")[0]: p.split("=")[1] for p in parts[:3]}
-    return " ".join([parts[0]] + parts[3:]), flags["good"] == "true", flags["entryOk"] == "true"
+def split_answer(ans: str) -> tuple[str]:
+    """model line → (comparable part,)"""
+    return (ans,)
 
 
 def initial_line(case: dict) -> str:
@@ -701,8 +699,8 @@ def run_history(chk: Check, rng: common.Rng, thorough: bool) -> None:
     stat["own_copies"] = sorted(stat["own_copies"])
     chk.info("history", stat)
     chk.info("patch_applications_observed", {"by_class_of_key": rec.counts, "inherited_keys": rec.inherited,
-                                             "meaning": "own / missing = hypothesis `good` of run_restores_partial "
-                                                        "holds for that application; inherited = outside it"})
+                                             "meaning": "information: since fix 21b5229 all three classes are "
+                                                        "restored exactly (run_restores has no hypothesis on keys)"})
     chk.info("snapshot_entries", len(first.res) + len(first.own))
 
 
@@ -773,34 +771,30 @@ def run(chk: Check) -> None:
     cases = [gen_case(rng, i) for i in range(n)]
     answers = common.run_driver("C13", [driver_line(c) for c in cases])
     disagreements: list[dict] = []
-    tie = {"cases": 0, "good_and_entryOk": 0, "raised": 0, "disagreements": 0, "leaks_in_sandbox": 0,
+    tie = {"cases": 0, "raised": 0, "disagreements": 0, "not_restored_in_sandbox": 0,
            "theorem_instances_confirmed": 0}
     for c, ans in zip(cases, answers):
         if ans.startswith("bad"):
             raise RuntimeError(f"driver rejected a case: {ans}: {json.dumps(c)[:300]}")
         real = run_real(c)
-        model, good, entry_ok = split_answer(ans)
+        (model,) = split_answer(ans)
         tie["cases"] += 1
         tie["raised"] += int(real.startswith("raised=true"))
         init = initial_line(c)
         restored = real.split(" ", 1)[1] == init.split(" ", 1)[1]
-        tie["leaks_in_sandbox"] += int(not restored)
         chk.count({"profile": c["profile"], "reg": c["reg"], "ps": c["ps"], "prog": c["prog"], "real": real[:200],
-                   "good": good, "entryOk": entry_ok, "restored": restored},
-                  nontrivial=c["prog"]["t"] not in ("skip", "raise"))
+                   "restored": restored}, nontrivial=c["prog"]["t"] not in ("skip", "raise"))
         if real != model:
             tie["disagreements"] += 1
             disagreements.append({"case": c, "real": real, "model": ans})
-        if good and entry_ok:
-            tie["good_and_entryOk"] += 1
-            if restored:
-                tie["theorem_instances_confirmed"] += 1
-            else:
-                # the theorem's conclusion fails on the real code although its hypotheses hold: the real
-                # context managers do not restore → a concrete failing input
-                chk.finding({"kind": "sandbox_not_restored", "profile": c["profile"]},
-                            "real apply_patches/apply_monkey_patches do not restore a namespace whose keys are "
-                            "all own/missing", {"case": c, "real": real, "initial": init})
+        # run_restores: every program restores every namespace (reference counts >= 1 by construction)
+        if restored:
+            tie["theorem_instances_confirmed"] += 1
+        else:
+            tie["not_restored_in_sandbox"] += 1
+            chk.finding({"kind": "sandbox_not_restored", "profile": c["profile"]},
+                        "the real apply_patches/apply_monkey_patches do not restore the sandbox namespace / "
+                        "_PATCH_STATE", {"case": c, "real": real, "initial": init})
     chk.info("tie", tie)
     chk.add("traces_validated_against_impl", tie["cases"])
     chk.info("disagreements_checked", tie["disagreements"])
@@ -817,7 +811,7 @@ def run(chk: Check) -> None:
     if disagreements and not chk.violations:
         chk.violation({"correspondence": "real apply_patches/apply_monkey_patches and the Lean model disagree on "
                                          "the final namespace / _PATCH_STATE; no leak was observed on the sandbox "
-                                         "(with good keys) or in the real histories",
+                                         "or in the real histories",
                        "n_disagreements": len(disagreements), "cases": disagreements[:5]},
                       name="correspondence", no_failing_input=True)
     elif disagreements:
@@ -849,7 +843,7 @@ def replay(path: str) -> int:
         ans = common.run_driver("C13", [driver_line(c)])[0]
         print("real :", real)
         print("model:", ans)
-        return 1 if real != split_answer(ans)[0] else 0
+        return 1 if (real != split_answer(ans)[0] or real.split(' ', 1)[1] != initial_line(c).split(' ', 1)[1]) else 0
     if "history" in rep:
         import jax
         from jax2onnx import to_onnx
